@@ -1,6 +1,96 @@
-(* C08: theorem statements are added when the corresponding Proofs file is merged. *)
+(* C08 Valid configurations run to the end; shipped schedulers decide admissibly.
+   Statements only; every proof is [exact <lemma of Proofs/SafetyFacts.v>]. What is proved:
+   - naive/starter with single-operator containers: the closed loop never raises (full theorem);
+   - naive/starter in any mode, overbook with overcommit: a run can only stop with an error raised inside a
+     container tick ([inner_err]: dependency/transition/stop-iteration/empty script), never by overselling a
+     pool, naming a wrong pool, a bad suspension or the operator-count assertion (partial);
+   - per round admissibility for naive/starter/overbook; for priority see C12_admissible, for priority-pool
+     C16_no_internal_assertion;
+   - the statistics epilogue is total.
+   The closed-loop claim for priority and priority-pool is decided by the correspondence of whole runs
+   (the implementation must return normally exactly when the model does) and the monitor. *)
 From Coq Require Import List ZArith QArith.
-From Eudoxia Require Import Model.Simulator.
-Example C08_placeholder : percentile99 nil = None.
-Proof. reflexivity. Qed.
-Print Assumptions C08_placeholder.
+Import ListNotations.
+From Eudoxia Require Import Model.Types Model.Dag Model.Lifecycle Model.Container Model.Pool Model.Executor
+  Model.Sched Model.Simulator Proofs.ExecLifeFacts Proofs.SafetyFacts.
+Close Scope Q_scope.
+Close Scope Z_scope.
+
+(* naive in single-operator mode and the starter template (any mode): every workload of well-formed DAG
+   pipelines with fresh ids, every pool count and size, every tick rate, every non-empty timing script:
+   the run reaches its last tick *)
+Theorem C08_single_mode_runs_to_end : forall C l (starter : bool) np cpu ram arrivals,
+  cf_static C = mk_static l -> dags_wf l ->
+  (forall op c, cf_script C op c <> []) ->
+  (if starter then true else negb (cf_multi C)) = true ->
+  NoDup (concat arrivals) ->
+  exists sf logs,
+    sim_run C (if starter then AStarter else ANaive) 0%Z (init_sim C np cpu ram) arrivals
+    = (sf, logs, None) /\ length logs = length arrivals.
+Proof. exact single_mode_runs_to_end_mk_static. Qed.
+Print Assumptions C08_single_mode_runs_to_end.
+
+(* naive/starter, any mode (partial): a run that stops, stops with an error from inside a container tick *)
+Theorem C08_naive_run_errors_partial : forall C (starter : bool) np cpu ram arrivals sf logs er,
+  orders_nodup (cf_static C) ->
+  sim_run C (if starter then AStarter else ANaive) 0%Z (init_sim C np cpu ram) arrivals
+    = (sf, logs, Some er) ->
+  inner_err er.
+Proof. exact naive_run_errors_partial. Qed.
+Print Assumptions C08_naive_run_errors_partial.
+
+(* overbook with overcommit (partial) *)
+Theorem C08_overbook_run_errors_partial : forall C np cpu ram arrivals sf logs er,
+  cf_overcommit C = true -> Qleb ram 0%Q = false ->
+  sim_run C AOverbook 0%Z (init_sim C np cpu ram) arrivals = (sf, logs, Some er) ->
+  inner_err er \/ er = ESchedAssert.
+Proof. exact overbook_run_errors_partial. Qed.
+Print Assumptions C08_overbook_run_errors_partial.
+
+(* per round: the decisions of naive/starter pass every executor check *)
+Theorem C08_naive_round_admissible : forall C starter s e results newp s' w' susps asgs n er,
+  naive_step C starter s e results newp = Ok (s', w', susps, asgs) ->
+  orders_nodup (cf_static C) ->
+  map p_id (e_pools e) = seq 0 n ->
+  exec_tick C {| e_world := w'; e_pools := e_pools e; e_next := e_next e |} susps asgs = Err er ->
+  inner_err er /\
+  er <> EBadPool /\ er <> EOversellCpu /\ er <> EOversellRam /\ er <> EBadSuspend /\ er <> EOpCount.
+Proof. exact naive_round_admissible. Qed.
+Print Assumptions C08_naive_round_admissible.
+
+Theorem C08_overbook_round_admissible : forall C s e results newp s' w' susps asgs n er,
+  overbook_step C s e results newp = Ok (s', w', susps, asgs) ->
+  cf_overcommit C = true ->
+  map p_id (e_pools e) = seq 0 n ->
+  exec_tick C {| e_world := w'; e_pools := e_pools e; e_next := e_next e |} susps asgs = Err er ->
+  inner_err er /\
+  er <> EBadPool /\ er <> EOversellCpu /\ er <> EOversellRam /\ er <> EBadSuspend /\ er <> EOpCount.
+Proof. exact overbook_round_admissible. Qed.
+Print Assumptions C08_overbook_round_admissible.
+
+(* the naive policy function itself never raises *)
+Theorem C08_naive_step_never_raises : forall C starter s e results newp er,
+  orders_nodup (cf_static C) -> naive_step C starter s e results newp <> Err er.
+Proof. exact naive_step_never_raises. Qed.
+Print Assumptions C08_naive_step_never_raises.
+
+(* the statistics epilogue is total: nan (None) exactly for empty samples (fix b15455f) *)
+Theorem C08_final_stats_total : forall C dur s,
+  exists st, final_stats C dur s = st /\
+    st_throughput st = (inject_Z (st_completed st) / dur)%Q /\
+    (flat_map p_tick_times (e_pools (sm_exec s)) = [] -> st_p99 st = None) /\
+    (flat_map p_tick_times (e_pools (sm_exec s)) <> [] -> exists q, st_p99 st = Some q) /\
+    Forall (fun ps => (pst_completions ps = 0%Z -> pst_mean ps = None /\ pst_p99 ps = None) /\
+                      (pst_completions ps <> 0%Z -> exists m p, pst_mean ps = Some m /\ pst_p99 ps = Some p))
+           [st_all st; st_query st; st_interactive st; st_batch st].
+Proof. exact final_stats_total. Qed.
+Print Assumptions C08_final_stats_total.
+
+Theorem C08_percentile_bounds : forall l lo hi,
+  l <> [] -> (forall x, In x l -> (lo <= x <= hi)%Z) ->
+  exists q, percentile99 l = Some q /\ (inject_Z lo <= q <= inject_Z hi)%Q.
+Proof. exact percentile99_bounds. Qed.
+Print Assumptions C08_percentile_bounds.
+
+Example C08_witness : percentile99 [] = None /\ meanZ [] = None.
+Proof. split; reflexivity. Qed.
